@@ -2,11 +2,13 @@
    force (bool, option, unit, list, prod, sumbool, sumor -> OCaml types; andb/orb
    inlined); Z, positive, nat, comparison, spec_float stay Coq datatypes. *)
 From Coq Require Import Extraction ExtrOcamlBasic.
-From Rscel Require Import Base.Prims Base.F64 Model.Value Model.Ops Model.Dispatch Model.Funcs Model.Interp Spec.Wf Spec.Arith.
+From Rscel Require Import Base.Prims Base.F64 Model.Value Model.Ops Model.Dispatch Model.Funcs Model.Interp Model.Lexer Model.Ast Model.Parser Spec.Wf Spec.Arith.
 Extraction Language OCaml.
 Extraction "../ocaml/extracted/model.ml"
   Prims.bytes_cmp F64.f64_of_bits F64.f64_to_bits
   Value.value Value.instr Value.cel_error Value.res Value.map_insert Value.map_get
   Ops.binop_eval Ops.unop_eval Ops.ord Ops.peq Ops.is_truthy Ops.access Ops.type_prop
   Funcs.call_default Funcs.construct_type Interp.run Interp.exec Interp.mkEnv
+  Text.utf8_encode Text.utf8_decode Lexer.tz_init Lexer.tz_next Lexer.tz_peek Lexer.tz_loc Lexer.lex
+  Parser.parse_program Parser.p_expr
   Wf.wf Arith.arith_spec Arith.widen Arith.num_of.
